@@ -325,7 +325,7 @@ fn ctlsys_line(w: &mut dyn Write, sys: &System) {
 
 pub(crate) type S4 = Fam<4, 0>;
 
-fn prove_system<const NT: usize>(sys: &System, cfg: &StarkConfig, tamper: Option<(usize, usize, usize, u64)>) -> Result<Vec<Sp>, String> {
+fn prove_system<const NT: usize>(sys: &System, cfg: &StarkConfig, tamper: Option<(usize, Vec<(usize, usize, u64)>)>) -> Result<Vec<Sp>, String> {
     let res = catch_unwind(AssertUnwindSafe(|| -> anyhow::Result<Vec<Sp>> {
         let mut timing = TimingTree::default();
         let ctls: Vec<CrossTableLookup<F>> = sys.ctls.iter().map(|c| CrossTableLookup::new(c.looking.iter().map(|t| t.to_twc()).collect(), c.looked.to_twc())).collect();
@@ -344,7 +344,7 @@ fn prove_system<const NT: usize>(sys: &System, cfg: &StarkConfig, tamper: Option
             let mut ch = challenger.clone();
             ch.observe_elements(&sys.tables[i].pis);
             cfg.observe(&mut ch);
-            if let Some((ti, col, row, d)) = tamper { if ti == i { starky::verif_hooks::set_aux_tamper(vec![(col, row, d)]) } }
+            if let Some((ti, entries)) = &tamper { if *ti == i { starky::verif_hooks::set_aux_tamper(entries.clone()) } }
             let p = prove_with_commitment::<F, C, S4, D>(&stark, cfg, &traces[i], &commitments[i], Some(&ctl_data[i]), Some(&ctl_challenges),
                                                           &mut ch, &sys.tables[i].pis, None, None, &mut timing);
             starky::verif_hooks::set_aux_tamper(vec![]);
@@ -393,7 +393,10 @@ fn verify_system<const NT: usize>(sys: &System, cfg: &StarkConfig, proofs: &[Sp]
 }
 
 pub(crate) fn pv_system(sys: &System, cfg: &StarkConfig, tamper: Option<(usize, usize, usize, u64)>) -> (String, String, Option<Vec<Sp>>) {
-    let pr = match sys.tables.len() { 2 => prove_system::<2>(sys, cfg, tamper), 3 => prove_system::<3>(sys, cfg, tamper), _ => prove_system::<4>(sys, cfg, tamper) };
+    pv_system_multi(sys, cfg, tamper.map(|(t, c, r, d)| (t, vec![(c, r, d)])))
+}
+pub(crate) fn pv_system_multi(sys: &System, cfg: &StarkConfig, tamper: Option<(usize, Vec<(usize, usize, u64)>)>) -> (String, String, Option<Vec<Sp>>) {
+    let pr = match sys.tables.len() { 2 => prove_system::<2>(sys, cfg, tamper.clone()), 3 => prove_system::<3>(sys, cfg, tamper.clone()), _ => prove_system::<4>(sys, cfg, tamper) };
     match pr {
         Ok(p) => { let v = vs(sys, cfg, &p); ("proof".into(), v, Some(p)) }
         Err(e) => (e, "-".into(), None),
@@ -401,6 +404,63 @@ pub(crate) fn pv_system(sys: &System, cfg: &StarkConfig, tamper: Option<(usize, 
 }
 fn vs(sys: &System, cfg: &StarkConfig, p: &[Sp]) -> String {
     match sys.tables.len() { 2 => verify_system::<2>(sys, cfg, p), 3 => verify_system::<3>(sys, cfg, p), _ => verify_system::<4>(sys, cfg, p) }
+}
+
+/// A violated cross-table lookup "repaired" by adding a constant to EVERY row of one looking table's running
+/// sum Z (per challenge): the first-row openings then balance in verify_cross_table_lookups and every
+/// transition constraint still holds; only the last-row constraint of that Z objects. One case per looking
+/// table of the violated CTL. Returns the number of lines written.
+fn ctl_shift_cases(w: &mut dyn Write, r: &mut Rng, sys: &System, cname: &str, cfg: &StarkConfig) -> usize {
+    // a system whose first CTL is violated: alter one selected looked value
+    let mut bad = System { name: sys.name.clone(), tables: sys.tables.iter().map(|t| Built { spec: t.spec.clone(), rows: t.rows.clone(), pis: t.pis.clone(), cols: t.cols.clone() }).collect(),
+                           ctls: sys.ctls.clone() };
+    let looked = &sys.ctls[0].looked;
+    let lt = looked.table;
+    let n = bad.tables[lt].rows.len();
+    let Some(row) = (0..n).find(|&i| looked.filter.eval_rows(&sys.tables[lt].rows, i) != F::ZERO) else { return 0 };
+    let Some(&(col, _)) = looked.cols[0].lin.first() else { return 0 };
+    bad.tables[lt].rows[row][col] += F::from_canonical_u64(1 + r.below(1000));
+    if ctl_holds(&bad) { return 0; }
+    let (_, _, proofs) = pv_system(&bad, cfg, None);
+    let Some(proofs) = proofs else { return 0 };
+    let nch = cfg.num_challenges;
+    let ctls: Vec<CrossTableLookup<F>> = bad.ctls.iter().map(|c| CrossTableLookup::new(c.looking.iter().map(|t| t.to_twc()).collect(), c.looked.to_twc())).collect();
+    // replay verify_cross_table_lookups' consumption order to find, per (ctl 0, challenge), the defect and the
+    // position of every table's opening
+    let zs: Vec<Vec<F>> = proofs.iter().map(|p| p.proof.openings.ctl_zs_first.clone().unwrap_or_default()).collect();
+    let mut pos = vec![0usize; zs.len()];
+    let mut looking0: Vec<usize> = vec![];
+    for t in &bad.ctls[0].looking { if !looking0.contains(&t.table) { looking0.push(t.table); } }
+    let mut defects = vec![];          // per challenge: (defect, position of each looking table's opening)
+    for _c in 0..nch {
+        let mut sum = F::ZERO;
+        let mut where_ = vec![];
+        for &t in &looking0 { if pos[t] >= zs[t].len() { return 0; } sum += zs[t][pos[t]]; where_.push((t, pos[t])); pos[t] += 1; }
+        if pos[lt] >= zs[lt].len() { return 0; }
+        let lz = zs[lt][pos[lt]]; pos[lt] += 1;
+        if !bad.ctls[0].extra.is_empty() { return 0; }
+        defects.push((lz - sum, where_));
+    }
+    if defects.iter().all(|(d, _)| *d == F::ZERO) { return 0; }
+    let mut cnt = 0;
+    for (li, &t) in looking0.iter().enumerate() {
+        if t == lt { continue; }
+        let stark = S4 { spec: bad.tables[t].spec.clone() };
+        let (nhelp, _nz, _by) = CrossTableLookup::num_ctl_helpers_zs_all(&ctls, t, nch, stark.constraint_degree());
+        let nlk = stark.num_lookup_helper_columns(cfg);
+        let nrows = bad.tables[t].rows.len();
+        let mut entries = vec![];
+        for (d, where_) in &defects {
+            let m = where_[li].1;
+            for rr in 0..nrows { entries.push((nlk + nhelp + m, rr, d.to_canonical_u64())); }
+        }
+        let (po, vo, _) = pv_system_multi(&bad, cfg, Some((t, entries)));
+        let repeats = bad.ctls[0].looking.iter().filter(|x| x.table == t).count();
+        writeln!(w, "c10 {}/{cname} ctl-violated:Z-of-table{t}-shifted-by-the-defect = {} # looked value altered at row {row}; table {t} appears {repeats}x among the looking tables; holds=0 prover={po} verify={vo}",
+                 bad.name, (vo != "ok") as u8).unwrap();
+        cnt += 1;
+    }
+    cnt
 }
 
 fn table_spec(name: &str, degree: usize, cons: Vec<Constraint>) -> FamSpec {
@@ -547,6 +607,8 @@ fn system_cases(w: &mut dyn Write, r: &mut Rng, sys: &mut System, cname: &str, c
     writeln!(w, "c10 {fam} honest = {} # holds={} prover={po} verify={vo}", accepted_iff(holds, &vo) as u8, holds as u8).unwrap();
     cnt += 2;
     if !holds || vo != "ok" { return cnt; }
+    let _ = &proofs;
+    cnt += ctl_shift_cases(w, r, sys, cname, cfg);
     // single-value corruptions: a filtered / unfiltered cell of every table, a filter flip, an extra value
     for ti in 0..sys.tables.len() {
         let nrows = sys.tables[ti].rows.len();
